@@ -1,0 +1,33 @@
+//go:build verif
+
+package dense
+
+// Contracts for the verification machinery in /verif (see /verif/DESIGN.md).
+// This file contains only comments; it is compiled to nothing.
+
+//@ prop C13
+
+// container/heap only calls the methods of h: it rearranges and extends/shrinks h.heap and
+// touches nothing else (in particular not the inQueue bitmap).
+//@ extern container/heap.Push(h heap.Interface, x any)
+//@   modifies nodeHeap.heap
+//@ extern container/heap.Pop(h heap.Interface) any
+//@   modifies nodeHeap.heap
+
+// The worklist's membership bitmap, viewed as a set of node ids.
+//@ ghost inq(q []int64, m int) bool = bit(q[m/64], m%64)
+
+//@ func (*nodeHeap).enqueue
+//@   requires h != nil && 0 <= nid && nid < 64*len(h.inQueue)
+//@   modifies h.inQueue, nodeHeap.heap
+//@   ensures  [len]    len(h.inQueue) == len(old(h.inQueue))
+//@   ensures  [member] inq(h.inQueue, nid)
+//@   ensures  [others] forall m int :: {inq(h.inQueue, m)} 0 <= m && m < 64*len(h.inQueue) && m != nid ==> inq(h.inQueue, m) == inq(old(h.inQueue), m)
+
+//@ func (*nodeHeap).dequeue
+//@   requires h != nil && len(h.heap) > 0 && 0 <= h.heap[0] && h.heap[0] < 64*len(h.inQueue)
+//@   modifies h.inQueue, nodeHeap.heap
+//@   ensures  [result] result == old(h.heap[0])
+//@   ensures  [len]    len(h.inQueue) == len(old(h.inQueue))
+//@   ensures  [member] !inq(h.inQueue, result)
+//@   ensures  [others] forall m int :: {inq(h.inQueue, m)} 0 <= m && m < 64*len(h.inQueue) && m != result ==> inq(h.inQueue, m) == inq(old(h.inQueue), m)
